@@ -25,7 +25,7 @@ def project(img):
         return -1 if t is None else int(round(1000 * float(t)))
 
     def dn(d):
-        return -1 if d is None else int(round((d - BASE_DATE).total_seconds()))
+        return -1 if d is None else int(round(1000 * (d - BASE_DATE).total_seconds()))       # milliseconds
     time = img.time if isinstance(img.time, list) else [img.time]
     date = img.date if isinstance(img.date, list) else [img.date]
     return {"shape": [int(s) for s in img.img.shape], "tags": [int(x) for x in np.asarray(img.img).astype(np.int64).ravel()],
@@ -54,7 +54,11 @@ def make_image(darsia, rng, cfg):
     if cfg["origin"] == "user":
         kw["origin"] = [1.5 * (a + 1) for a in range(n)]
     if cfg["timekind"] in ("dates", "both"):
-        kw["date"] = [BASE_DATE + datetime.timedelta(seconds=7 * i) for i in range(T)] if cfg["series"] else BASE_DATE
+        # (acquisition dates by turns: whole seconds; burst frames milliseconds apart; days apart)
+        DSTEP[0] += 1
+        dstep = [7.0, 0.004, 93600.5][DSTEP[0] % 3]
+        kw["date"] = [BASE_DATE + datetime.timedelta(seconds=dstep * i + (0.25 if dstep < 1 else 0.0)) for i in range(T)] if cfg["series"] else \
+            BASE_DATE + datetime.timedelta(seconds=(0.125 if DSTEP[0] % 3 == 1 else 0.0))
     if cfg["timekind"] in ("times", "both"):
         kw["time"] = [2.5 * i + 1 for i in range(T)] if cfg["series"] else 4.5
     with warnings.catch_warnings():
@@ -67,6 +71,9 @@ def make_image(darsia, rng, cfg):
             kw.pop("scalar")
             return darsia.OpticalImage(arr3, color_space=rng.choice(["RGB", "BGR", "HSV"]), **kw)
         return darsia.Image(arr, **kw)
+
+
+DSTEP = [-1]
 
 
 def npz_event(darsia, rng, cfg, tid, work):
